@@ -137,19 +137,14 @@ open RsslVerif.Model.NamesEmit
 structure RState where
   nss : Array (Option Nat × String) := #[]
   defs : Array Def := #[]
-  structNames : Array String := #[]
-  structNs : Array (Option Nat) := #[]
-  enumNames : Array String := #[]
-  enumNs : Array (Option Nat) := #[]
-  valueNames : Array (Nat × String) := #[]
-  globalNames : Array String := #[]
-  globalNs : Array (Option Nat) := #[]
-  funcNames : Array String := #[]
-  funcNs : Array (Option Nat) := #[]
-  methods : Array Nat := #[]
+  nStructs : Nat := 0
+  nEnums : Nat := 0
+  /-- (enum ordinal) of every value, numbered through all enums -/
+  valueEnum : Array Nat := #[]
+  nGlobals : Nat := 0
+  nFuncs : Nat := 0
+  nCbufs : Nat := 0
   localNames : Array String := #[]
-  cbufNames : Array String := #[]
-  cbufNs : Array (Option Nat) := #[]
   pipeline : Option (List Nat × Option Nat) := none
 
 def findNs (st : RState) (parent : Option Nat) (name : String) : Option Nat :=
@@ -174,7 +169,7 @@ def pairAfter (c : Char) (s : String) : Option (Nat × Nat) :=
 
 /-- the `i`-th value of enum `e` in the numbering through all enums -/
 def valueOrd (st : RState) (e i : Nat) : Option Nat :=
-  let idx := (List.range st.valueNames.size).filter fun v => st.valueNames[v]!.1 == e
+  let idx := (List.range st.valueEnum.size).filter fun v => st.valueEnum[v]! == e
   idx[i]?
 
 def parseRef (st : RState) (r : String) : Ref :=
@@ -232,54 +227,43 @@ partial def parseItems (st : RState) (cur : Option Nat) (top : Bool) : List Stri
     | none => none
   | "st" :: n :: r =>
     let (ms, fs) := splitAtBar (takeToEnd r)
-    let ord := st.structNames.size
-    let f0 := st.funcNames.size
-    let fords := (List.range fs.length).map (· + f0)
-    let st1 := { st with
-      structNames := st.structNames.push n, structNs := st.structNs.push cur
-      funcNames := st.funcNames ++ fs.toArray, funcNs := st.funcNs ++ (fs.map fun _ => cur).toArray
-      methods := st.methods ++ fords.toArray
-      defs := st.defs.push ⟨cur, .struct ord ms fords⟩ }
-    parseItems st1 cur top (skipToEnd r)
+    let methods := (List.range fs.length).map fun i => (st.nFuncs + i, fs.getD i "")
+    let d : Def := ⟨cur, .struct st.nStructs n ms methods⟩
+    parseItems { st with nStructs := st.nStructs + 1, nFuncs := st.nFuncs + fs.length, defs := st.defs.push d }
+      cur top (skipToEnd r)
   | "en" :: n :: r =>
     let vs := takeToEnd r
-    let ord := st.enumNames.size
-    let v0 := st.valueNames.size
-    let st1 := { st with
-      enumNames := st.enumNames.push n, enumNs := st.enumNs.push cur
-      valueNames := st.valueNames ++ (vs.map fun v => (ord, v)).toArray
-      defs := st.defs.push ⟨cur, .enum ord ((List.range vs.length).map (· + v0))⟩ }
-    parseItems st1 cur top (skipToEnd r)
+    let v0 := st.valueEnum.size
+    let d : Def := ⟨cur, .enum st.nEnums n ((List.range vs.length).map fun i => (v0 + i, vs.getD i ""))⟩
+    parseItems { st with nEnums := st.nEnums + 1, valueEnum := st.valueEnum ++ (vs.map fun _ => st.nEnums).toArray,
+                         defs := st.defs.push d } cur top (skipToEnd r)
   | "gl" :: k :: n :: r =>
-    let ord := st.globalNames.size
-    parseItems { st with globalNames := st.globalNames.push n, globalNs := st.globalNs.push cur,
-                         defs := st.defs.push ⟨cur, .glob ord (k.toList.headD 's')⟩ } cur top r
+    let d : Def := ⟨cur, .glob st.nGlobals n (k.toList.headD 's')⟩
+    parseItems { st with nGlobals := st.nGlobals + 1, defs := st.defs.push d } cur top r
   | "rs" :: kind :: o :: n :: r =>
     match opts? o with
     | some ro =>
-      let ord := st.globalNames.size
-      parseItems { st with globalNames := st.globalNames.push n, globalNs := st.globalNs.push cur,
-                           defs := st.defs.push ⟨cur, .res ord kind ro⟩ } cur top r
+      let d : Def := ⟨cur, .res st.nGlobals n kind ro⟩
+      parseItems { st with nGlobals := st.nGlobals + 1, defs := st.defs.push d } cur top r
     | none => none
   | "cb" :: n :: o :: r =>
     match opts? o with
     | some ro =>
-      let ord := st.cbufNames.size
-      parseItems { st with cbufNames := st.cbufNames.push n, cbufNs := st.cbufNs.push cur,
-                           defs := st.defs.push ⟨cur, .cbuf ord n ro.group (takeToEnd r)⟩ } cur top (skipToEnd r)
+      let d : Def := ⟨cur, .cbuf st.nCbufs n ro.group (takeToEnd r)⟩
+      parseItems { st with nCbufs := st.nCbufs + 1, defs := st.defs.push d } cur top (skipToEnd r)
     | none => none
   | "fn" :: n :: pt :: r =>
     let np := if pt == "-" then 0 else pt.length
     let params := r.take np
     match r.drop np with
     | "{" :: body =>
-      let ord := st.funcNames.size
+      let ord := st.nFuncs
       let l0 := st.localNames.size
-      let st1 := { st with funcNames := st.funcNames.push n, funcNs := st.funcNs.push cur,
-                           localNames := st.localNames ++ params.toArray }
+      let st1 := { st with nFuncs := st.nFuncs + 1, localNames := st.localNames ++ params.toArray }
       match parseBody st1 0 #[] body with
       | some (st2, toks, r2) =>
-        parseItems { st2 with defs := st2.defs.push ⟨cur, .func ord ((List.range np).map (· + l0)) toks.toList none⟩ } cur top r2
+        let d : Def := ⟨cur, .func ord n ((List.range np).map (· + l0)) toks.toList none⟩
+        parseItems { st2 with defs := st2.defs.push d } cur top r2
       | none => none
     | _ => none
   | "ef" :: k :: n :: r =>
@@ -287,13 +271,12 @@ partial def parseItems (st : RState) (cur : Option Nat) (top : Bool) : List Stri
     let params := r.take np
     match r.drop np with
     | "{" :: body =>
-      let ord := st.funcNames.size
+      let ord := st.nFuncs
       let l0 := st.localNames.size
-      let st1 := { st with funcNames := st.funcNames.push n, funcNs := st.funcNs.push cur,
-                           localNames := st.localNames ++ params.toArray }
+      let st1 := { st with nFuncs := st.nFuncs + 1, localNames := st.localNames ++ params.toArray }
       match parseBody st1 0 #[] body with
       | some (st2, toks, r2) =>
-        let d : Def := ⟨cur, .func ord ((List.range np).map (· + l0)) toks.toList (some (k.toList.headD 'c'))⟩
+        let d : Def := ⟨cur, .func ord n ((List.range np).map (· + l0)) toks.toList (some (k.toList.headD 'c'))⟩
         parseItems { st2 with defs := st2.defs.push d } cur top r2
       | none => none
     | _ => none
@@ -306,13 +289,7 @@ partial def parseItems (st : RState) (cur : Option Nat) (top : Bool) : List Stri
   | _ => none
 
 def toProgram (st : RState) : Program :=
-  { nss := st.nss.toList, defs := st.defs.toList
-    structNames := st.structNames.toList, enumNames := st.enumNames.toList, valueNames := st.valueNames.toList
-    globalNames := st.globalNames.toList, funcNames := st.funcNames.toList, methods := st.methods.toList
-    localNames := st.localNames.toList
-    structNs := st.structNs.toList, enumNs := st.enumNs.toList, globalNs := st.globalNs.toList
-    funcNs := st.funcNs.toList, cbufNs := st.cbufNs.toList, cbufNames := st.cbufNames.toList
-    pipeline := st.pipeline }
+  { nss := st.nss.toList, defs := st.defs.toList, localNames := st.localNames.toList, pipeline := st.pipeline }
 
 def parseProgram (s : String) : Option Program :=
   let toks := (s.splitOn " ").filter (· ≠ "")
@@ -335,7 +312,7 @@ def answer (t : Target) (p : Program) : String :=
   | .ok names =>
     " ".intercalate ([showNames names, "|refl"] ++
       (reflection t names p).map (fun r => toString r.1 ++ ":" ++ r.2) ++
-      ["|entry"] ++ entryNames t names p ++ ["|out", " ".intercalate (emit t names p)])
+      ["|entry"] ++ entryNames t names p ++ ["|out", " ".intercalate ((emit t names p).map render)])
 
 end Res
 
